@@ -29,6 +29,9 @@ pub struct Scen {
     pub delete: Vec<u32>,
     pub garbage: BTreeSet<String>,
     pub desc: String,
+    /// One storage fault of the backup, addressed by (verb, path, occurrence): the same fault
+    /// under every schedule.
+    pub fault: Option<(V, String, usize, conserve::transport::ErrorKind)>,
 }
 
 /// Archive with >= 1 complete version plus garbage blocks (a large-file block and a combined
@@ -98,7 +101,7 @@ pub fn build(seed: u64, case: u64, tag: &str) -> Scen {
         garbage.len(),
         if delete.is_empty() { "gc".to_string() } else { format!("delete {delete:?}") }
     );
-    Scen { world: w, opts, delete, garbage, desc }
+    Scen { world: w, opts, delete, garbage, desc, fault: None }
 }
 
 pub struct SchedOutcome {
@@ -115,6 +118,9 @@ pub fn run_schedule(sc: &Scen, plan: &Plan) -> SchedOutcome {
     let arch = sc.world.sc.fresh("sched");
     fmt06::copy_dir(&sc.world.arch, &arch);
     let s = Sched::new(&arch, &[A, B]);
+    if let Some((v, p, nth, kind)) = &sc.fault {
+        s.set_fault(A, *v, p, *nth, *kind);
+    }
     let src = sc.world.src.clone();
     let opts = sc.opts;
     let del = sc.delete.clone();
@@ -384,7 +390,28 @@ pub fn run(tier: Tier, replay: Option<Value>) -> i32 {
                 continue;
             }
         }
-        let sc = build(run.seed, case, "c06");
+      for pass in 0..2 {
+        let replay_fault = replay.as_ref().and_then(|r| r.get("backup_fault")).is_some();
+        if (pass == 1) != replay_fault && replay.is_some() {
+            continue;
+        }
+        if pass == 1 && replay.is_none() && !(case == 0 || tier == Tier::Thorough) {
+            continue;
+        }
+        let mut sc = build(run.seed, case, "c06");
+        if pass == 1 {
+            // a fault and a schedule together: the backup's second look for GC_LOCK (the root
+            // listing that follows its BANDHEAD write) fails; the backup must not carry on as if
+            // it had seen no lock
+            let probe = run_schedule(&sc, &Plan { first: A, switches: vec![] });
+            crate::scratch::rm(&probe.arch);
+            let head = probe.log.iter().position(|e| e.actor == A && e.verb == V::Write && e.path.ends_with("BANDHEAD"));
+            let nth = head.map(|h| probe.log[..h].iter().filter(|e| e.actor == A && e.verb == V::ListDir && e.path.is_empty()).count());
+            let Some(nth) = nth else { continue };
+            sc.fault = Some((V::ListDir, String::new(), nth, conserve::transport::ErrorKind::Other));
+            sc.desc.push_str(&format!("; the backup's root listing #{nth} (its second look for the lock) fails"));
+            run.count("scenarios_with_a_fault_on_the_backups_lock_recheck", 1);
+        }
         // length of the sequential run A then B
         let base = run_schedule(&sc, &Plan { first: A, switches: vec![] });
         let n = base.steps + 2;
@@ -400,17 +427,19 @@ pub fn run(tier: Tier, replay: Option<Value>) -> i32 {
                 Tier::Quick => p.extend(plans_bound2(n, if case == 0 { 1 } else { 3 })),
                 Tier::Thorough => p.extend(plans_bound2(n, 1)),
             }
-            let mut rng = Rng::for_case(run.seed, case, 8);
+            let mut rng = Rng::for_case(run.seed, case, 8 + pass as u64);
             for _ in 0..tier.pick(150, 4000) {
                 p.push(random_plan(&mut rng, n));
             }
-            let mut t3 = plans_bound3_targeted(&base.log);
-            run.count("targeted_3_preemption_plans_available", t3.len() as u64);
-            if tier == Tier::Quick && t3.len() > 1500 {
-                rng.shuffle(&mut t3);
-                t3.truncate(1500);
+            if pass == 0 {
+                let mut t3 = plans_bound3_targeted(&base.log);
+                run.count("targeted_3_preemption_plans_available", t3.len() as u64);
+                if tier == Tier::Quick && t3.len() > 1500 {
+                    rng.shuffle(&mut t3);
+                    t3.truncate(1500);
+                }
+                p.extend(t3);
             }
-            p.extend(t3);
             p
         };
         plans.dedup();
@@ -436,20 +465,25 @@ pub fn run(tier: Tier, replay: Option<Value>) -> i32 {
                         let sig: String = o.log.iter().map(|e| format!("{}{}", e.actor, e.verb.name().len())).collect();
                         run.nontrivial(fnv(format!("{case}|{sig}|{}", o.log.len()).as_bytes()));
                         run.observe("final_archive_states", format!("{:x}", fnv(format!("{:?}", fmt06::dir_bytes(&o.arch).keys().collect::<Vec<_>>()).as_bytes())));
-                        let replay = json!({"case": case, "plan": plan.to_json(), "scenario": arc_sc.desc,
+                        let mut replay = json!({"case": case, "plan": plan.to_json(), "scenario": arc_sc.desc,
                             "grants": o.log.iter().map(|e| e.brief()).collect::<Vec<_>>()});
+                        if pass == 1 {
+                            replay["backup_fault"] = json!(true);
+                            run.count("schedules_run_with_a_fault_on_the_backups_lock_recheck", 1);
+                        }
                         judge(&run, &arc_sc, plan, &o, &replay);
                         crate::scratch::rm(&o.arch);
                     }
                 });
             }
         });
+      }
     }
     let _ = Path::new("");
     run.finish(
-        "actors A = backup(source) and B = gc, delete of the oldest version, or delete of the newest version (the backup's basis), on archives holding a complete version plus garbage blocks (a large-file block and a combined block left by a hand-removed band) whose content reappears in A's source; every storage operation of either actor is parked until a deterministic scheduler grants it (the scheduler only chooses when both actors are settled). Schedules: all with <= 1 preemption (every start offset of either actor, every switch point), a grid of 2-preemption schedules (every pair in the thorough tier), random schedules with 3-5 switches, and 3-preemption schedules aimed at the operations where the actors look at each other (lock file, root listing, band directory, block directory, first removals, hunk and tail writes): every triple (X stops before its a1-th operation, Y before its b1-th, X before its a2-th) over those positions, 1500 sampled in the quick tier. When both have finished: every version with a tail must restore exactly to the tree it was made from and no complete band may reference a removed block. Distinct = distinct grant sequences.",
+        "actors A = backup(source) and B = gc, delete of the oldest version, or delete of the newest version (the backup's basis), on archives holding a complete version plus garbage blocks (a large-file block and a combined block left by a hand-removed band) whose content reappears in A's source; every storage operation of either actor is parked until a deterministic scheduler grants it (the scheduler only chooses when both actors are settled). Schedules: all with <= 1 preemption (every start offset of either actor, every switch point), a grid of 2-preemption schedules (every pair in the thorough tier), random schedules with 3-5 switches, and 3-preemption schedules aimed at the operations where the actors look at each other (lock file, root listing, band directory, block directory, first removals, hunk and tail writes): every triple (X stops before its a1-th operation, Y before its b1-th, X before its a2-th) over those positions, 1500 sampled in the quick tier. For the first scenario (every scenario in the thorough tier) all schedules up to two preemptions are run once more with one storage fault added: the backup's second look for the lock (the root listing after its BANDHEAD write) fails. When both have finished: every version with a tail must restore exactly to the tree it was made from and no complete band may reference a removed block. Distinct = distinct grant sequences.",
         &["granularity is one storage operation; operations of parallel listing tasks of one actor are granted in canonical order", "interleavings beyond the explored preemption bound are sampled, not enumerated"],
         Some(false),
-        &[("schedules_run", 50), ("schedules_backup_references_former_garbage", 5), ("complete_versions_restored", 100)],
+        &[("schedules_run", 50), ("schedules_backup_references_former_garbage", 5), ("complete_versions_restored", 100), ("schedules_run_with_a_fault_on_the_backups_lock_recheck", 100)],
     )
 }
